@@ -15,8 +15,8 @@ func init() {
 }
 
 type floodLine struct {
-	text   string
-	enq    time.Duration // when the harness handed it to the client
+	text    string
+	enq     time.Duration // when the harness handed it to the client
 	floodOn bool          // Config.Flood at that time (phases are separated by quiescence)
 }
 
@@ -139,10 +139,10 @@ func floodRun(e *Env) {
 
 	// wire records: one Write per line (lines are shorter than the bufio buffer)
 	type wire struct {
-		t      time.Duration
-		text   string
-		enq    time.Duration
-		flood  bool
+		t     time.Duration
+		text  string
+		enq   time.Duration
+		flood bool
 	}
 	var ws []wire
 	oi := 0
